@@ -109,7 +109,7 @@ PROPS = {
         'not_decided': ['whole-file quantifier (any byte sequence)', 'allocation bounds beyond the window-row count (nom many_m_n caps assumed)', 'convert_tree beyond one-node trees', 'key slicing beyond 5-byte ASCII keys'],
     },
     'C13': {
-        'technique': 'Verus contracts on the extracted text of LineSpectralPairs::{lsp2lpc, lsp2mgc}, Generalized::{gnorm, ignorm}, MelGeneralizedCepstrum::{gc2gc, mgc2mgc} and MelGeneralizedLogSpectrumApproximation::{df, dff} (IEEE ops, cos, exp, ln, powf uninterpreted); the two iterator-chain holes and an API-level polynomial-product harness checked by Kani',
+        'technique': 'Verus contracts on the extracted text of LineSpectralPairs::{lsp2lpc, lsp2mgc}, Generalized::{gnorm, ignorm}, MelGeneralizedCepstrum::{gc2gc, mgc2mgc} and MelGeneralizedLogSpectrumApproximation::{df, dff} (IEEE ops, cos, exp, ln, powf uninterpreted); the two iterator-chain holes and an API-level polynomial-product harness checked by Kani; bit-precise Kani runs of the real gc2gc / gnorm / ignorm and of the MGLSA filter (alpha = 0) on exact dyadic inputs against the SPTK definitions and the direct-form all-pole cascade (K-mgc, K-mglsa)',
         'level_text': 'unbounded proof (any order, even or odd) of the mechanism-level clauses of the property: the LPC polynomial is built from the line spectral frequencies w_1..w_m that FOLLOW the gain entry (cosine tables from the odd- and even-numbered frequencies), has m + 1 coefficients with a_0 = 1 and a_j = -(-0.5 (P_j + Q_j)) where P_j, Q_j are the time-j outputs of the two cascades of second-order sections 1 + t z^-1 + z^-2 fed with x[k] +- x[k-1] (even order) or x[k] and x[k] - x[k-2] (odd order), i.e. the coefficients of (P(z) + Q(z)) / 2 as HTS_lsp2lpc computes them; the gain (or exp of the log gain) replaces a_0, the conversion to MGC is of order m; gnorm / ignorm / gc2gc are the SPTK gain-normalisation and generalised-cepstral-transformation recursions and mgc2mgc composes them (after freqt with (a2 - a1) / (1 - a1 a2) when the warpings differ); the MGLSA filter runs its sections in order, each warping its delay line in place, subtracting the prediction and shifting the line (df / dff as a state machine); none of these panics on well-formed shapes',
         'level_note': 'PARTIAL, mechanism level only: that the pulse response has magnitude K / |A(e^jw)|^s within 0.001 neper, and stability, are NOT decided (frequency-domain statement about an IIR filter; no float semantics in Verus, libm not modelled by CBMC); that the cascade equals the polynomial product in exact arithmetic is not proved in Verus (floats are uninterpreted) but checked by Kani on orders 2..5 with exact dyadic values against products computed over the rationals; freqt at the instance MelGeneralizedCepstrum is assumed to have the contract proved for the same default-method text at MelCepstrum',
         'verus': ['lsp', 'mgc', 'mglsa'],
